@@ -28,7 +28,7 @@ fn spec(t: Tier) -> Spec {
     Spec {
         id: "C05",
         level: "model_checking",
-        rule: format!("default mode: every string of <= {a} symbols over {{space,tab,newline,',\",\\,a,b,é,à}} is read by the real WhitespaceDelimitedArgumentReader (hook H1) in one read() and compared with the reference tokenizer (bytes and line-end flags); every string of <= {b} symbols is read under EVERY composition of its bytes into read() results (incl. 1-byte reads, cuts inside é, inside quotes, after a backslash) and must give the single-read answer; buffer edge: 'a'*k ++ s for every 4090 <= k+|s| <= 4100 and every s of <= {c} symbols with 0, 1 and 2 extra cuts at every position within +-4 of 4096; EINTR injected before each read (must be retried), EIO (must propagate). -0 / -d x / -d '\\n': strings <= {d} over {{a,b,NUL,x,newline,',\",\\,space,0xFF,é}} in one read, <= {e} under every chunking, and 'a'*k ++ s around the BufReader's 8192 edge. state = (bytes consumed, reader's pending/escape state) explored through every environment schedule; transitions = read() answers. Scale slice: three streams of 12000 arguments (50000 in thorough), 150-250 KB (0.6-1 MB) in all (arguments of cycling lengths incl. 5000, 9000 and 20000 bytes, a 6000-byte quoted argument with blanks, tabs and single quotes, backslash-newline, é/à, a run of 4097 blanks / 8193 delimiters) in one read(), in equal chunks of 1, 7, 4095..4097, 8191..8193 bytes and with each of the first 24 refills shifted by one byte. Every -d operand is given as -d OP, -dOP, --delimiter OP and --delimiter=OP (NUL also as -0 and --null). Special inputs through the binary: a /proc file (st_size 0), a FIFO written in two pieces, /proc/self/cmdline (NUL-separated), each via -a FILE and via standard input. Binary slice: strings <= 3 piped into the xargs binary byte-by-byte and in one write."),
+        rule: format!("default mode: every string of <= {a} symbols over {{space,tab,newline,',\",\\,a,b,é,à}} is read by the real WhitespaceDelimitedArgumentReader (hook H1) in one read() and compared with the reference tokenizer (bytes and line-end flags); every string of <= {b} symbols is read under EVERY composition of its bytes into read() results (incl. 1-byte reads, cuts inside é, inside quotes, after a backslash) and must give the single-read answer; buffer edge: 'a'*k ++ s for every 4090 <= k+|s| <= 4100 and every s of <= {c} symbols with 0, 1 and 2 extra cuts at every position within +-4 of 4096; EINTR injected before each read (must be retried), EIO (must propagate). -0 / -d x / -d '\\n': strings <= {d} over {{a,b,NUL,x,newline,',\",\\,space,0xFF,é}} in one read, <= {e} under every chunking, and 'a'*k ++ s around the BufReader's 8192 edge. state = (bytes consumed, reader's pending/escape state) explored through every environment schedule; transitions = read() answers. Scale slice: three streams of 12000 arguments (50000 in thorough), 150-250 KB (0.6-1 MB) in all (arguments of cycling lengths incl. 5000, 9000 and 20000 bytes, a 6000-byte quoted argument with blanks, tabs and single quotes, backslash-newline, é/à, a run of 4097 blanks / 8193 delimiters) in one read(), in equal chunks of 1, 7, 4095..4097, 8191..8193 bytes and with each of the first 24 refills shifted by one byte. Every -d operand is given as -d OP, -dOP, --delimiter OP and --delimiter=OP (NUL also as -0 and --null). Runs of 300 000 bare separators between four items (-0, -d newline, -d comma, default mode with newlines and with blanks) through the binary under a 1 MiB stack. Special inputs through the binary: a /proc file (st_size 0), a FIFO written in two pieces, /proc/self/cmdline (NUL-separated), each via -a FILE and via standard input. Binary slice: strings <= 3 piped into the xargs binary byte-by-byte and in one write."),
         bound: json!({"single_read_len": a, "all_chunkings_len": b, "edge_suffix_len": c, "byte_mode_len": d, "byte_mode_chunk_len": e}),
         assumptions: vec![
             "set aside (run for determinism only): strings ending in a lone unquoted backslash, a newline inside quotes, CR/VT/FF".into(),
